@@ -110,6 +110,10 @@ impl U for () {
     fn gen(_r: &mut Rng, _d: usize) -> Self {}
     fn mutate(&self, _r: &mut Rng) -> Self {}
 }
+thread_local! {
+    /// generated `Id`s are below this bound (C10 sets it to the number of actors)
+    pub static ID_MOD: std::cell::Cell<usize> = const { std::cell::Cell::new(4) };
+}
 impl U for Id {
     fn ty() -> String {
         "id".into()
@@ -118,7 +122,7 @@ impl U for Id {
         usize::from(*self).to_string()
     }
     fn gen(r: &mut Rng, _d: usize) -> Self {
-        Id::from(r.below(4))
+        Id::from(r.below(ID_MOD.with(|m| m.get()).max(1)))
     }
     fn mutate(&self, r: &mut Rng) -> Self {
         let x = usize::from(*self);
